@@ -57,6 +57,19 @@ CLAIMED = {
              "bytes fails; any oversize TLV value / slice anywhere in the history fails. For every history. Tie: 32k histories "
              "incl. every placement of set_length relative to the first write (exhaustive to depth 3) and the 65535/65536 boundary.",
         ref="7-C09", technique="Coq proof (corollary of the builder closed form) + differential correspondence on call histories"),
+    "C07": dict(
+        text="Theorems C07_wire/C07_named/C07_parse/C07_tlv_view/C07_tlvs (Props/C07.v): for every command, transport, "
+             "well-formed address value and TLV list fitting in 65535 bytes, every history writing exactly those TLVs builds "
+             "the wire encoding of Spec/Encoder.v; the model parser accepts it with the same command, transport, addresses and "
+             "bytes, and (family specified) iterating its TLV view yields the same list. Induction over TLV lists / histories. "
+             "Tie: build-then-parse on 8k histories (all 4 families, every type byte, lengths 0..65535, totals of exactly 65535).",
+        ref="7-C07", technique="Coq proof (builder = wire spec; parser o wire = identity) + differential correspondence on build-then-parse"),
+    "C13": dict(
+        text="Theorems C13_raw/C13_items/C13_parts/C13_value (Props/C13.v): for every accepted header, rebuilding from control "
+             "bytes + address bytes + TLV section (raw bytes, TypeLengthValues, decoded items when well-formed, or any history "
+             "encoding the payload) gives exactly the original bytes; so does rebuilding from the decoded address value when a "
+             "family is specified. For all inputs. Tie: parse-then-rebuild (four ways) on 140k inputs.",
+        ref="7-C13", technique="Coq proof (encode o decode = identity on accepted headers) + differential correspondence on parse-then-rebuild"),
 }
 
 NOT_YET = "not yet claimed: model, theorems and correspondence stream for this property are still being built (DESIGN 10.4)"
